@@ -65,9 +65,12 @@ CHUNK_EXT = (
 # Pre-compiled regular expressions for use elsewhere
 ONLY_HEXDIG_RE = re.compile(("^" + HEXDIG + r"+\Z").encode("latin-1"))
 ONLY_DIGIT_RE = re.compile(("^" + DIGIT + "+$").encode("latin-1"))
+# The optional whitespace after the field content is matched inside the value
+# group (the parser strips it): two adjacent runs of OWS around an empty value
+# could share a long run of blanks in every possible way.
 HEADER_FIELD_RE = re.compile(
     (
-        "^(?P<name>" + TOKEN + "):" + OWS + "(?P<value>" + FIELD_VALUE + ")" + OWS + "$"
+        "^(?P<name>" + TOKEN + "):" + OWS + "(?P<value>(?:" + FIELD_CONTENT + OWS + ")?)$"
     ).encode("latin-1")
 )
 QUOTED_PAIR_RE = re.compile(QUOTED_PAIR)
